@@ -3,6 +3,7 @@ import concurrent.futures
 import hashlib
 import hmac
 import os
+import random
 import struct
 
 import dns.exception
@@ -515,6 +516,52 @@ def cases(ctx):
             if am[3] is None:
                 am[3] = [0, 1232, []]
             yield "signed-alg", [9, am, rng.choice([16, 128, 468, 0]), rng.choice([0, 1, 2]), 1, algidx, dictmode]
+    # OPT (+TSIG) reserves that bring header (+question) + reserve to within 16 octets of the limit, on both
+    # sides: the budget left for the sections is then -16..16 octets around the 12 octets already written.
+    # Through the model (op 1), the clauses of check_result (length <= limit) apply to every result.
+    rb = random.Random(rng.randrange(2**32))
+    tsigs = [None]
+    for alg_mac, kn in ((32, [b"k", b""]), (64, [b"a-rather-long-key-name-for-transfers", b"keys", b"example", b""]),
+                        (20, [b"key", b"example", b""])):
+        t = g.gen_tsig(rb, g.NamePool(rb, None), 4660)
+        while t is None:
+            t = g.gen_tsig(rb, g.NamePool(rb, None), 4660)
+        t[0] = kn
+        tsigs.append(t)
+    qn = [b"q", b"example", b""]
+    k = 0
+    for lim in (512, 513, 520, 600):
+        for delta in range(-16, 17):
+            k += 1
+            for tsig in ([tsigs[k % len(tsigs)]] if ctx.quick else tsigs):
+                withq = rb.random() < 0.5
+                secs = [[[qn, g.IN, g.A, 0, None, 0, []]] if withq else [], [], [], []]
+                if rb.random() < 0.3:
+                    secs[1] = [[qn, g.IN, g.A, 0, None, 60, [[bytes([10, 0, 0, 1])]]]]
+                pad = 0 if rb.random() < 0.8 else rb.choice([16, 128])
+                am0 = [4660, 0x0100, secs, [0, 1232, [[65001, b""]]], tsig]
+                m0 = g.mk_message(am0, pad=pad)
+                r0 = m0._compute_opt_reserve() + (m0._compute_tsig_reserve() if tsig is not None else 0)
+                n = lim - 12 - (g.wire_len(qn) + 4 if withq else 0) + delta - r0
+                if n < 0:
+                    continue
+                am = [4660, 0x0100, secs, [0, 1232, [[65001, bytes(n)]]], tsig]
+                for prefer in ((1,) if ctx.quick and delta % 4 else (1, 0)):
+                    yield "near-reserve", [1, am, None, lim, 0, prefer, pad]
+    # the same neighbourhood through the Renderer API: reserve() calls summing to max_size - 12 +- 16
+    for ms in (512, 520, 600):
+        for delta in range(-16, 17, 1 if not ctx.quick else 2):
+            mid, flags, ms_, ops = g.gen_rapi_near(rb, ms, delta)
+            yield "rapi-near", [7, None, mid, flags, ms_, ops]
+    # every generated message at exactly its own size, one below and one above (max_size and request payload)
+    for (am2, origin, top, prefer, pad) in meta[:: (3 if ctx.quick else 1)]:
+        full2 = g.run_render(am2, origin, 65535, 0, 0, pad)
+        if isinstance(full2, Err):
+            continue
+        for lim in (len(full2) - 1, len(full2), len(full2) + 1):
+            if lim >= 512:
+                yield "exact-fit", [1, am2, origin, lim, 0, prefer, pad]
+        yield "exact-fit", [1, am2, origin, 0, len(full2), 0, pad]
 
 
 def in_model(kind, case):
@@ -631,6 +678,32 @@ def impl(case):
 
 
 rr_list = g.rr_list
+
+
+def reserves(am, pad):
+    """(OPT reserve, TSIG reserve) of Message.to_wire, computed from the abstract message: the OPT record with
+    its options (plus the header of the padding option), the TSIG record with nothing compressed"""
+    opt, tsig = am[3], am[4]
+    ro = rt = 0
+    if opt is not None:
+        ro = 11 + sum(4 + len(d) for _, d in opt[2]) + (4 if pad else 0)
+    if tsig is not None:
+        rt = g.wire_len(tsig[0]) + 10 + sum(len(p) if isinstance(p, (bytes, bytearray)) else g.wire_len(p[1]) for p in tsig[1])
+    return ro, rt
+
+
+def check_error(am, eff, prefer, pad, err, fail, **kw):
+    """an exception instead of a result: TooBig, and with prefer_truncation (no padding) only when the header
+    and the OPT/TSIG records alone do not fit; the ValueError of Renderer.reserve (a reserve larger than what
+    is left of the limit) is the recorded finding C08-reserve-valueerror"""
+    ro, rt = reserves(am, pad)
+    if err.code != 20:
+        if "ValueError" in err.text and (ro > eff or rt > eff - ro):
+            fail("rendering raised something else than TooBig: " + err.text, sig="exc-reserve", exc=err.text, **kw)
+        else:
+            fail("rendering raised something else than TooBig: " + err.text, sig="exc", exc=err.text, **kw)
+    elif prefer and pad == 0 and 12 + ro + rt <= eff:
+        fail("TooBig although truncation is preferred and header, OPT and TSIG fit", sig="toobig", **kw)
 
 
 def check_result(am, origin, lim, prefer, pad, w, fail):
@@ -789,10 +862,7 @@ def oracle(ctx, kind, case, out):
                 fail("max_size=%d request_payload=%d is not rendered like the effective limit %d" % (max_size, reqp, eff),
                      sig="clamp")
         if isinstance(out, Err):
-            if out.code != 20:
-                fail("rendering raised something else than TooBig: " + out.text, sig="exc", exc=out.text)
-            elif prefer and pad == 0:
-                fail("TooBig although truncation is preferred", sig="toobig")
+            check_error(am, eff, prefer, pad, out, fail)
             return F
         check_result(am, origin, lim, prefer, pad, bytes(out), fail)
         return F
@@ -813,10 +883,7 @@ def oracle(ctx, kind, case, out):
             return F
         for i, (lim, r) in enumerate(out):
             if isinstance(r, Err):
-                if r.code != 20:
-                    fail("rendering raised something else than TooBig: " + r.text, limit=lim, sig="exc")
-                elif prefer and pad == 0:
-                    fail("TooBig although truncation is preferred", limit=lim, sig="toobig")
+                check_error(am, min(max(lim, 512), 65535), prefer, pad, r, fail, limit=lim)
                 continue
             # the same octets for limits lim .. nxt-1: the size bound must hold for the smallest
             check_result(am, origin, lim, prefer, pad, bytes(r), lambda what, **kw: fail(what, limit=lim, **kw))
